@@ -319,7 +319,25 @@ fn borrowed_case(e: &mut Ent, ctx: &mut Ctx) -> Outcome {
             }
         }
     }
-    let bytes = encode_message(&g, &[root], &[val.clone()], &gen_layout(e));
+    let mut bytes = encode_message(&g, &[root], &[val.clone()], &gen_layout(e));
+    // sometimes a hand-made message instead: a vector (or text) header with an element
+    // type code of the same or another layout, a length, and that many payload bytes -
+    // well-formed for some codes, malformed for others (no value of `empty` exists);
+    // either way both decoders must agree
+    if e.ratio(1, 4) {
+        let code = *e.pick(&[0x7bu8, 0x77, 0x7e, 0x6f, 0x70, 0x7f, 0x7a, 0x71, 0x68]);
+        let len = e.range(0, 6);
+        let payload = e.range(0, 8);
+        bytes = b"DIDL".to_vec();
+        if e.ratio(1, 6) {
+            bytes.extend([0, 1, code]);
+        } else {
+            bytes.extend([1, 0x6d, code, 1, 0]);
+        }
+        bytes.push(len as u8);
+        bytes.extend((0..payload).map(|i| if e.bool() { i as u8 + 1 } else { e.u8() }));
+        ctx.class("borrowed-hand-made-vector-message");
+    }
     ctx.class(if is_bytes { "borrowed-&[u8]" } else { "borrowed-&str" });
     let native: Result<Result<RVal, String>, _> = guard(|| {
         if is_bytes {
